@@ -19,6 +19,42 @@ pub fn first_with_letters(k: u32) -> Option<u128> {
   Some(t - 1)
 }
 
+/// Run implementation code from a GENERATOR: a panic there must not kill the harness (the case
+/// that exposes it is found by `run`, inside `guarded`); the caller falls back or skips.
+pub fn try_impl<T>(f: impl FnOnce() -> T) -> Option<T> {
+  std::panic::catch_unwind(std::panic::AssertUnwindSafe(f)).ok()
+}
+
+/// the name of rune n in modified base-26, computed independently of the implementation
+/// (generators build their inputs with this, never with Rune's Display)
+pub fn name_of(n: u128) -> String {
+  // digits of n + 1 in bijective base 26, using (n / 26, n % 26) to stay inside u128 for n = MAX
+  let mut letters = Vec::new();
+  let mut q = n; // invariant: remaining value is q + 1
+  loop {
+    letters.push((b'A' + (q % 26) as u8) as char);
+    q /= 26;
+    if q == 0 {
+      break;
+    }
+    q -= 1;
+  }
+  letters.iter().rev().collect()
+}
+
+/// printed form of a spaced rune, computed independently of the implementation
+pub fn spaced_name_of(n: u128, spacers: u32) -> String {
+  let name: Vec<char> = name_of(n).chars().collect();
+  let mut s = String::new();
+  for (i, c) in name.iter().enumerate() {
+    s.push(*c);
+    if i + 1 < name.len() && i < 32 && spacers & (1u32 << i) != 0 {
+      s.push('•');
+    }
+  }
+  s
+}
+
 fn chars_line(op: u8, s: &str) -> Line {
   let mut l = L::new().p(op);
   for c in s.chars() {
@@ -91,7 +127,7 @@ pub fn gen(rng: &mut Rng, tier: &str) -> Vec<Line> {
   v.push(chars_line(1, ""));
   v.push(chars_line(3, ""));
   for &n in runes.iter().take(2000) {
-    v.push(chars_line(1, &Rune(n).to_string()));
+    v.push(chars_line(1, &name_of(n)));
   }
   v.push(chars_line(1, "BCGDENLQRQWDSLRUGSNLBTMFIJAV"));
   v.push(chars_line(1, "BCGDENLQRQWDSLRUGSNLBTMFIJAW"));
@@ -116,7 +152,7 @@ pub fn gen(rng: &mut Rng, tier: &str) -> Vec<Line> {
       1 => (rng.next() & rng.next()) as u32,
       _ => 1u32 << rng.below(28),
     };
-    let printed = SpacedRune::new(Rune(n), sp).to_string();
+    let printed = spaced_name_of(n, sp);
     let mut s: String = printed.chars().map(|c| if c == '•' && rng.chance(1, 2) { '.' } else { c }).collect();
     match rng.below(10) {
       0 => s.insert(0, '.'),
